@@ -1,7 +1,7 @@
 import sys; sys.path.insert(0, '/verif/harness')
 import mkprops as m
 P = 'Proofs/Json.v'
-IMP = 'From BE Require Import Model.Json Model.Schema Gen.JsonFraming Gen.Schemas Proofs.Json.\nFrom Coq Require Import ZArith.\nLocal Open Scope string_scope.\nLocal Open Scope list_scope.'
+IMP = 'From BE Require Import Gen.JsonFns Proofs.JsonGen Proofs.JsonGenCor.\nFrom BE Require Import Model.Json Model.Schema Gen.JsonFraming Gen.Schemas Proofs.Json.\nFrom Coq Require Import ZArith.\nLocal Open Scope string_scope.\nLocal Open Scope list_scope.'
 m.write('C12', 'JSON game logs are schema-valid and read back exactly as written.', IMP, '', [
  (P, 'parse_tokens', 'C12_parser_reads_what_is_printed', 'token level: every JSON value printed is parsed back, whatever follows'),
  (P, 'parse_doc_tokens', 'C12_parse_doc', None),
@@ -13,6 +13,12 @@ m.write('C12', 'JSON game logs are schema-valid and read back exactly as written
  (P, 'log_as_settings', 'C12_as_settings', 'the same document is a board-settings source yielding the same boards in order'),
  (P, 'log_schema_valid', 'C12_schema', 'the document conforms to the published log schema (AST regenerated from the shipped files); double-dummy rows, when given, must list all five strains'),
  (P, 'log_schema_needs_full_rows', 'C12_schema_hypothesis_is_needed', 'the hypothesis on double-dummy rows cannot be dropped'),
+ ('Proofs/JsonGen.v', 'g_record_json_eq', 'C12_generated_writer_is_hand_model', 'JsonLogWriter.write REGENERATED from the text of writer.py on every run (harness/gen_jsonw.py): the record it builds equals the hand model, for every record'),
+ ('Proofs/JsonGen.v', 'g_log_of_written', 'C12_generated_reader_on_written_records', 'convert_board_log regenerated from parser.py, on everything the writer writes, equals the hand model (read through the typed view shape_log)'),
+ ('Proofs/JsonGen.v', 'g_parse_board_logs_eq', 'C12_generated_reader_is_hand_model', 'parse_board_logs regenerated: the hand model on every document whose records have a play_history key and only seat / side names under players / scores (as every written record has)'),
+ ('Proofs/JsonGenCor.v', 'g_logs_roundtrip', 'C12_roundtrip_generated', 'the property, for the regenerated writer and reader'),
+ ('Proofs/JsonGenCor.v', 'g_log_as_settings', 'C12_as_settings_generated', None),
+ ('Proofs/JsonGenCor.v', 'g_logs_schema_valid', 'C12_schema_generated', None),
  (P, 'ex_written_and_read', 'C12_example_written_and_read', 'non-vacuity'),
  (P, 'ex_logs_back', 'C12_example_logs_back', None),
  (P, 'ex_validates', 'C12_example_validates', None),
